@@ -1,4 +1,5 @@
 import SgVerif.C34.Lemmas
+import SgVerif.C34.ExclInv
 /-
 C34 — RMA windows behave like shared memory under their locks.  Property theorems.
 
@@ -13,9 +14,14 @@ Mechanism level (model of smpi_win.cpp's request plumbing, section Mech of Model
       theorem mech_refines_spec : ∀ programs p (race-free in the sense of `phaseCommutes` outside exclusive epochs),
         ∀ schedules es, runMech (init p) es = some s → s.finished → allowed … (obsOf s) = true
 
-  is FALSE on the current code (`mech_excl_unlock_counterexample`, `mech_cas_counterexample`,
-  `mech_getacc_counterexample`, all three replayed on the real library, see NOTES.md) and is not proved for the
-  repaired variants (only: the witnesses' schedules are no longer executable, `*_blocked_when_fixed`).
+  was FALSE on the code before the three fix commits (`mech_excl_unlock_counterexample`, `mech_cas_counterexample`,
+  `mech_getacc_counterexample`, all three replayed on the real library, see NOTES.md).  For the repaired mechanism (all
+  three switches on = /repo now) the part of it that the first defect broke is PROVED for all programs of exclusive-lock
+  epochs and ALL schedules: `mech_fixed_excl_epochs_isolated` (every message in flight belongs to the current holder of
+  the exclusive lock of its target window; a free or newly acquired lock means nothing is in flight to that window).
+  Still NOT proved: that the final memory is the one of a serialisation (`mech_refines_spec`); what is missing is the
+  argument inside ONE epoch (deliveries in any order of the holder's messages = the sequential `Block.exec`, for blocks
+  whose Put / Get footprints are disjoint from the other calls of the block) and the composition over epochs.
 -/
 namespace SgVerif.C34
 
@@ -190,6 +196,30 @@ theorem accumulate_returns_drained (s1 s2 : MState) (r t d : Nat) (op : ROp) (va
   apply this m hm
   simp [between, hc.1, hc.2]
 
+/-! ### the repaired mechanism: exclusive-lock epochs are isolated, in-flight data included (∀ programs, ∀ schedules) -/
+
+/-- **Exclusive epochs are atomic including their in-flight data** (repaired mechanism, `fixedV`).  For every initial
+    memory, every number of ranks, every program in which each rank runs any sequence of exclusive-lock epochs
+    (lock t; any Put / Get / Accumulate / Get_accumulate / Compare_and_swap addressed to t; unlock t — any targets, self
+    included), and EVERY schedule of micro-actions and message deliveries that the mechanism can execute, in every state
+    reached: (1) each RMA message in flight belongs to the rank that currently holds the exclusive lock of its target
+    window; hence (2) while the lock of a window is free — in particular at the moment the next origin acquires it — no
+    message to that window is in flight: nothing of a finished epoch can land inside the next one (what
+    `mech_excl_unlock_counterexample` shows for the old `Win::unlock`); (3) `mode_` is 1 exactly while `lock_mut_` is
+    owned (the odd branches of `Win::lock` for `mode_ = 2` are never taken).  Inductive invariant `GInv` (ExclInv.lean). -/
+theorem mech_fixed_excl_epochs_isolated (m0 : Mem) (progs : List (List Epoch))
+    (hok : ∀ es ∈ progs, ∀ e ∈ es, epochOk e) (evs : List Ev) (s : MState)
+    (hrun : runMech (MState.init m0 (progs.map progMicros)) evs = some s) :
+    (∀ msg ∈ s.pending, s.lockOwner msg.target = some msg.origin) ∧
+    (∀ t, s.lockOwner t = none → ∀ msg ∈ s.pending, msg.target ≠ t) ∧
+    (∀ t, s.mode t = if (s.lockOwner t).isSome then 1 else 0) := by
+  have h := ginv_run evs _ s (ginv_init m0 progs hok) hrun
+  refine ⟨h.owner, ?_, h.mode⟩
+  intro t ht msg hm heq
+  have := h.owner msg hm
+  rw [heq, ht] at this
+  cases this
+
 /-! ### counterexamples: the code as it is (Variant all false) -/
 
 def obsOf (n w : Nat) (ids : List Nat) (s : MState) : Obs :=
@@ -316,5 +346,36 @@ example : allowedIn 3 2 m0w [[[.put 2 0 [1]], [.put 2 0 [2]]], [[.put 2 0 [2]], 
 
 /-- cas_atomic's hypotheses are satisfiable and the count is exactly one -/
 example : ((casResults 2 0 3000 [(1, 11), (2, 22), (3, 33)] m0w).filter (· = 3000)).length = 1 := by decide
+
+/-- the old `Win::unlock` breaks the invariant of `mech_fixed_excl_epochs_isolated`: after rank 0's release its two puts are
+    in flight towards window 2 whose lock is free -/
+theorem mech_unfixed_inflight_after_release_counterexample :
+    (runMech (MState.init m0w (w1Progs preFix)) (w1Sched.take 5)).map
+      (fun s => (s.lockOwner 2, s.pending.map (fun m => (m.origin, m.target)))) = some (none, [(0, 2), (0, 2)]) := by
+  decide +kernel
+
+/-- non-vacuity of `mech_fixed_excl_epochs_isolated`: witness 1 as a program of epochs; on the repaired mechanism a
+    complete run exists (rank 0's puts are delivered before it can release; then rank 1's epoch) and gives the
+    serialisation epoch 0 ; epoch 1 -/
+example : [[(⟨2, w1Epoch0⟩ : Epoch)], [⟨2, w1Epoch1⟩]].map progMicros = w1Progs fixedV := rfl
+example : ∀ es ∈ [[(⟨2, w1Epoch0⟩ : Epoch)], [⟨2, w1Epoch1⟩]], ∀ e ∈ es, epochOk e := by
+  intro es hes e he
+  simp only [List.mem_cons, List.mem_nil_iff, or_false] at hes
+  rcases hes with rfl | rfl
+  · simp only [List.mem_singleton] at he
+    subst he
+    intro c hc
+    simp only [w1Epoch0, List.mem_cons, List.mem_nil_iff, or_false] at hc
+    rcases hc with rfl | rfl <;> rfl
+  · simp only [List.mem_singleton] at he
+    subst he
+    intro c hc
+    simp only [w1Epoch1, List.mem_cons, List.mem_nil_iff, or_false] at hc
+    rcases hc with rfl | rfl <;> rfl
+example : (runMech (MState.init m0w (w1Progs fixedV))
+    [.call 0, .call 0, .call 0, .call 0, .deliver 0, .deliver 0, .call 0, .call 0, .call 1, .call 1, .call 1, .call 1,
+     .deliver 1, .deliver 0, .call 1, .call 1]).map
+      (fun s => (s.finished 3, s.mem (.win 2 0), s.mem (.win 2 1), s.mem (.res 3 0), s.mem (.res 4 0))) =
+    some (true, 7, 5, 7, 5) := by decide +kernel
 
 end SgVerif.C34
